@@ -44,6 +44,13 @@ def fragExtras (O : Oracles) (opts : DeserOpts) (cls : FieldDecl) (x : PyVal) : 
       && inFrag O (.struct c fields defaults) (.inst c.name rest)
   | _, _ => false
 
+/-- the hypotheses of `class_round_trip_none_attrs_partial`: the instance without its None attributes is in the fragment -/
+def fragNoneAttrs (O : Oracles) (cls : FieldDecl) (x : PyVal) : Bool :=
+  match cls, x with
+  | .struct c fields defaults, .inst n attrs =>
+    n == c.name && inFrag O (.struct c fields defaults) (.inst c.name (attrs.filter fun a => !a.2.isNone))
+  | _, _ => false
+
 def run (j : Json) : Except String Json := do
   let O ← oraclesOfJson j
   let cls ← declOfJson (← j.getObjVal? "cls")
@@ -63,7 +70,8 @@ def run (j : Json) : Except String Json := do
       -- is the instance inside the fragment on which the round trip is PROVED (class_round_trip_partial)?
       -- (the instance the MODEL constructs: attributes in the constructor's order, undeclared ones first)
       let xm := match inst with | .ok y => y | .error _ => x
-      out := out ++ [("inFrag", Json.bool (inFrag O cls xm)), ("inFragExtras", Json.bool (fragExtras O opts cls xm))]
+      out := out ++ [("inFrag", Json.bool (inFrag O cls xm)), ("inFragExtras", Json.bool (fragExtras O opts cls xm)),
+                     ("inFragNone", Json.bool (fragNoneAttrs O cls xm))]
       out := out ++ [("ser", resToJson s)]
       match s with
       | .ok d =>
